@@ -1,5 +1,6 @@
 import Spake2Verif.Proofs.PropAuxA
 import Spake2Verif.Proofs.ProtoShapeTie
+import Spake2Verif.Proofs.ProtoFlowTie
 /-!
 # C09 — Restoring under the wrong role or parameters is always detected
 
@@ -462,5 +463,10 @@ theorem fingerprint_recipe_is_the_source {G : Group} (i : Inst G) :
     Spake2Model.Gen.Proto.hash_effects_asym = ["arb_empty", "scalar_enc"] ∧
     Spake2Model.Gen.Proto.hash_effects_sym = ["arb_empty", "scalar_enc"] :=
   ProtoShapeTie.hashParams_tie i
+
+/-- Tie A: the order and content of the restore checks (side check / constructor / `hashed_params` comparison, per
+class) are those of the *source*: `fromDict` equals the translation of the two `_deserialize_from_dict` -/
+theorem restore_checks_are_the_source {G : Group} : @fromDict G = ProtoFlowTie.flowRestore :=
+  ProtoFlowTie.restore_is_source
 
 end Spake2Verif.C09
